@@ -57,7 +57,7 @@ func NewModule(e *Env, name string) (*Module, error) {
 	if err := os.MkdirAll(filepath.Join(dir, "vref"), 0o755); err != nil {
 		return nil, err
 	}
-	if err := os.WriteFile(filepath.Join(dir, "go.mod"), []byte("module vcase\n\ngo 1.22\n"), 0o644); err != nil {
+	if err := os.WriteFile(filepath.Join(dir, "go.mod"), []byte("module vcase\n\ngo 1.21\n"), 0o644); err != nil {
 		return nil, err
 	}
 	err := fs.WalkDir(vref.Sources, ".", func(p string, d fs.DirEntry, err error) error {
